@@ -140,6 +140,15 @@ def classify(ws):
     """-> (kind, exact values) where kind in {'exact-one','off','ambiguous'}"""
     vals = [_exact(w) for w in ws]
     if any(v is None for v in vals):
+        # a stage without a weight counts as 0: the given ones may still land in the near-one band that the statement
+        # leaves open ("sum to one" up to which rounding?) - thorough seed 11: [missing, 1e-06, 0.999998]
+        given = [v for v in vals if v is not None and not isinstance(v, str)]
+        try:
+            s = sum(given)
+            if all(v >= 0 for v in given) and s != 1 and abs(s - 1) <= Fraction(1, 1000):
+                return "ambiguous", vals
+        except TypeError:
+            pass
         return "off", vals
     s = sum(vals)
     if any(v < 0 for v in vals):
